@@ -37,7 +37,7 @@ def overcountHistory : List COp :=
    .base .commit, .stat]
 
 /-- On the history of finding C52-F1 the chunks gauge now equals the recount (3 chunks): the repair
-    "fix: tsdb: head chunks gauge over-counts when a sample is rejected at commit time" (b8a3360070)
+    "fix: tsdb: head chunks gauge over-counts when a sample is rejected at commit time" (8bced8cd99)
     resets `chunkCreated` for every sample and the model follows (`repoFixedChunkCreated = true`).
     Before the repair the gauge said 4 (`onChunkCreated` ran a second time for the previous sample's
     chunk; reproduced on the real DB, see known_findings.jsonl `fixed` C52-F1). -/
